@@ -149,6 +149,23 @@ def verify_function(c, mutate=None, canary=False):
     fnode = copy.deepcopy(ex_src.fn)
     if mutate is not None:
         fnode = mutate(fnode)
+    seg_from, seg_until = getattr(c, "body_from", None), getattr(c, "body_until", None)
+    if seg_from or seg_until:
+        # verify a segment of the function body (statements between two anchors); the variables live at its
+        # start are parameters of the contract
+        body = fnode.body
+        lo, hi = 0, len(body)
+        firsts = [_first_line(st_).rstrip(":") for st_ in body]
+        if seg_from:
+            if firsts.count(seg_from.rstrip(":")) != 1:
+                raise AttachError(f"{c.name}: segment start `{seg_from}` not found exactly once at top level")
+            lo = firsts.index(seg_from.rstrip(":"))
+        if seg_until:
+            if firsts.count(seg_until.rstrip(":")) != 1:
+                raise AttachError(f"{c.name}: segment end `{seg_until}` not found exactly once at top level")
+            hi = firsts.index(seg_until.rstrip(":"))
+        fnode.body = body[lo:hi]
+        fnode.args = ast.arguments(posonlyargs=[], args=[], kwonlyargs=[], kw_defaults=[], defaults=[])
     cx = VerifyCtx(c, ex_src)
     asserts = sorted([x for x in ast.walk(fnode) if isinstance(x, ast.Assert)], key=lambda x: (x.lineno, x.col_offset))
     for k_, a_ in enumerate(asserts, 1):
@@ -190,6 +207,8 @@ def verify_function(c, mutate=None, canary=False):
         env["$" + g_] = SeqV(fresh("ghost." + g_, AII), env["$nwrites"] if g_.startswith("w_") else fresh("ghost." + g_ + ".n", I), None)
     inv.append(env["$tally"].n >= 0)
     env["$tally_key"] = SeqV(env["$tally_key"].arr, env["$tally"].n, None)
+    if any(isinstance(x, (ast.Yield, ast.YieldFrom)) for x in ast.walk(fnode)):
+        env["__yielded__"] = ListV()
     st = St(env, inv)
     if init_self is not None:
         from .calls import construct
